@@ -10,7 +10,7 @@ AlterJson(t) == [field |-> t.field, value |-> t.value,
                  id |-> IF t.field = "algid" /\ t.value \in AllAlgs THEN AlgId(t.value) ELSE 0]
 
 GenEmit ==
-    phase = "verified" =>
+    /\ (phase = "verified" /\ cfg.opts = DefaultOpts) =>
         PrintT("BEHAVIOUR " \o ToJson(
             [cfg |-> [alg |-> cfg.alg, algid |-> AlgId(cfg.alg), hash |-> HashOf(cfg.alg), family |-> Family(cfg.alg),
                       key |-> KeyFor(cfg.alg), siglen |-> SigLen(cfg.alg), struct |-> Structure(cfg.alg),
@@ -18,4 +18,13 @@ GenEmit ==
                       pk |-> cfg.pk, det |-> cfg.det, aad |-> cfg.aad],
              alters |-> [k \in 1..Len(trail) |-> AlterJson(trail[k])],
              expect |-> IF verdict = "TRUE" THEN "accept" ELSE "reject"]))
+    \* signer options: one line per outcome the specification allows for (key, options, payload kind, detached, aad);
+    \* "refused": Sign returns an error; "verifies": the product, labelled `label`, verifies with the matching key
+    /\ (phase \in {"verified", "refused"} /\ cfg.opts # DefaultOpts) =>
+        PrintT("BEHAVIOUR " \o ToJson(
+            [signopts |-> [key |-> cfg.key, kind |-> cfg.opts.kind, hash |-> cfg.opts.hash, salt |-> cfg.opts.salt,
+                           pk |-> cfg.pk, det |-> cfg.det, aad |-> cfg.aad],
+             outcome |-> IF phase = "refused" THEN "refused" ELSE "verifies",
+             label |-> IF phase = "refused" THEN "none" ELSE cfg.alg,
+             labelid |-> IF phase = "refused" THEN 0 ELSE LabelId(cfg.alg)]))
 =============================================================================
